@@ -334,9 +334,7 @@ class ExtendLoop(LoopSpec):
         h.havoc(list(h.arr))
         h.havoc_ptr()
         g = run.ghost["ext"]
-        if g["dt0"] is None:
-            # after the first append the dtype is set
-            me.fields["dtype"] = SDt(run.fresh_int("dtype"))
+        g["phase"] = 1
 
     def invariant(self, run, env, i, seq):
         me = env["self"]
@@ -346,6 +344,22 @@ class ExtendLoop(LoopSpec):
         lay = me.elem_layout
         k = z3.Int("xk")
         copy = env["copy"]
+        if g["dt0"] is None:
+            # an emulsion that starts without dtype has none before the first droplet and, from then on, the data layout of the FIRST droplet added
+            first = z3.Select(g["arrs0"]["dtype_tag"], z3.Select(g["arrs0"]["data"], z3.Select(src.elems, 0)))
+            ph = g.get("phase", 0)
+            if ph == 0:
+                yield ("an emulsion without dtype still has none before the first droplet is added", z3.BoolVal(me.fields.get("dtype") is None))
+            elif ph == 1:
+                g["phase"] = 2          # assume phase: the state after i steps
+                if run.branch(i == 0):
+                    me.fields["dtype"] = None
+                else:
+                    me.fields["dtype"] = SDt(first)
+            else:
+                dt = me.fields.get("dtype")
+                yield ("after the first droplet the emulsion has adopted that droplet's data layout (and keeps it)",
+                       (dt.tag == first) if isinstance(dt, SDt) else z3.BoolVal(False))
         yield ("length == old length + number of processed droplets", to_z3(me.length) == g["L0"] + i)
         yield ("old members stay in place", z3.ForAll([k], z3.Implies(z3.And(k >= 0, k < g["L0"]), z3.Select(me.elems, k) == z3.Select(g["E0"], k))))
         yield ("pre-state records are unchanged", frame_old_records(run, g["arrs0"], lay))
@@ -371,14 +385,16 @@ class EmulsionExtend(Contract):
     modular = False
 
     def cases(self):
-        return [dict(cls=c, dim=2, copy=cp) for c in CLASSES for cp in (True, False)]
+        return [dict(cls=c, dim=2, copy=cp) for c in CLASSES for cp in (True, False)] + \
+               [dict(cls="SphericalDroplet", dim=2, copy=cp, src="emulsion", dtype="none") for cp in (True, False)]
 
     def setup(self, run, case):
         lay = layout_of(case["cls"], case["dim"])
         touch_layout(run, lay)
-        em = sym_em(run, "self", case["dim"], case["cls"])
+        em = sym_em(run, "self", case["dim"], case["cls"], dtype_none=case.get("dtype") == "none")
         src = sym_em(run, "src", case["dim"], case["cls"])
-        src.cls = None     # a plain list of droplets
+        if case.get("src") != "emulsion":
+            src.cls = None     # a plain list of droplets (else: another Emulsion - it must be treated like any other iterable of droplets)
         self.ctx = (run, em, src, lay, snapshot(run), em.elems, to_z3(em.length))
         return dict(self=em, droplets=src, copy=case["copy"], force_consistency=False)
 
@@ -390,6 +406,12 @@ class EmulsionExtend(Contract):
         out = [("length grows by the number of added droplets", to_z3(em.length) == L0 + n),
                ("old members stay in place", z3.ForAll([k], z3.Implies(z3.And(k >= 0, k < L0), z3.Select(em.elems, k) == z3.Select(E0, k)))),
                ("nothing that existed before is modified", frame_old_records(run, arrs0, lay))]
+        if case.get("dtype") == "none":
+            dt = em.fields.get("dtype")
+            first = z3.Select(arrs0["dtype_tag"], z3.Select(arrs0["data"], z3.Select(src.elems, 0)))
+            out.append(("an emulsion without dtype adopts the data layout of the first droplet added (whatever kind of iterable the droplets come in), so "
+                        "that later droplets of another layout can be rejected", z3.Implies(n > 0, z3.And(z3.BoolVal(isinstance(dt, SDt)), dt.tag == first)) if isinstance(dt, SDt)
+                        else n == 0))
         if case["copy"]:
             out.append(("added members are independent copies, in order", z3.ForAll([k], z3.Implies(z3.And(k >= 0, k < n), z3.And(
                 z3.Select(em.elems, L0 + k) >= h.alloc0, z3.Select(h.arr["data"], z3.Select(em.elems, L0 + k)) >= h.alloc0,
@@ -874,10 +896,24 @@ def _conc_extend(self, case, inputs):
     ds = _mk_droplets(case["cls"], case["dim"], inputs["n"], inputs["seed"], inputs["special"])
     src = _mk_droplets(case["cls"], case["dim"], (inputs["n"] + 2) % 4, inputs["seed"] + 1, inputs["special"] + 1)
     em = droplets.Emulsion(ds, copy=False)
+    if case.get("dtype") == "none":
+        em = droplets.Emulsion()
+    if case.get("src") == "emulsion":
+        src = droplets.Emulsion(src, copy=False)
     members = list(em)
     before = [_vals(x) for x in src]
     em.extend(src, copy=case["copy"])
     bad = []
+    if case.get("dtype") == "none" and len(src) > 0:
+        if em.dtype is None or em.dtype != src[0].data.dtype:
+            bad.append("an emulsion without dtype adopts the data layout of the first droplet added")
+        else:
+            other = droplets.SphericalDroplet([0.0] * (case["dim"] + 1), 1.0)
+            try:
+                em.append(other, force_consistency=True)
+                bad.append("a droplet of another layout is rejected when consistency is requested")
+            except ValueError:
+                pass
     if len(em) != len(members) + len(src) or any(a is not b for a, b in zip(em, members)):
         bad.append("old members stay in place")
     else:
